@@ -160,12 +160,20 @@ def _len_like_local(cad, path):
     return False
 
 
+def peel_views(a):
+    while a[0] in ('ref', 'copy', 'move', 'mutated') and len(a) > 1 and isinstance(a[1], tuple):
+        a = a[1]
+    return a
+
+
 def _size_leaf(t, sz, cad=None):
     """in-memory lengths, size-hint fields (usize sums of lengths), value counts"""
     if t[0] == 'call' and isinstance(t[1], str) and (t[1].endswith('::len') or t[1].endswith('::capacity')):
         return True
     if t[0] == 'call' and isinstance(t[1], str) and cad is not None and _len_like_local(cad, t[1]):
         return True
+    if t[0] == 'call' and isinstance(t[1], str) and strip_generics(t[1]).endswith(('cmp::Ord::min', 'cmp::min', 'cmp::Ord>::min')):
+        return any(_size_leaf(peel_views(a), sz, cad) for a in t[2])      # min(a, b) <= a
     if t[0] == 'field' or t[0] == 'load':
         x = t[1] if t[0] == 'load' else t
         n = x[2] if x[0] == 'field' else None
@@ -188,11 +196,12 @@ def check(ctx, rep):
     if m.ok:
         before = len(rep.violations())
         # premises of `written <= capacity` only (a weaker invariant than I): flush-before-overfull, counting, reset
-        # value, construction, frame.  The *order* of reset and inner flush (M8) does not matter for this bound.
+        # value, frame.  Construction (written starts at 0, capacity is the configured value) is how the writer model
+        # finds the two fields in the first place.  The *order* of reset and inner flush (M8) and the size of the inner
+        # BufWriter (M9) do not matter for this bound.
         W.rule_M2(m, rep, 'must')
-        W.rule_M4_M5_M6(m, rep, want=('M5',))
+        W.rule_M4_M5_M6(m, rep, want=('M5',), zero_store_ok=True)
         rule_M8_weak(m, rep)
-        W.rule_M9(m, rep)
         W.rule_M10(m, rep)
         inv_ok = len(rep.violations()) == before
     sz = size_fields(ctx)
